@@ -5,14 +5,18 @@ import random
 import common
 import prov
 
-RULE = ("cases: histories of authorize / redeem / refresh-with-scope / chained refresh with random scope multisets (duplicates, unknown values, "
+RULE = ("cases: histories of authorize / redeem / refresh-with-scope / chained refresh / token exchange (owning or another client, access or "
+        "refresh requested, with or without a scope; opaque handlers, usage rules that let access tokens be exchanged) with random scope multisets (duplicates, unknown values, "
         "offline_access) over clients with different allowed_scopes (explicit list, narrower list, provider default), OIDC and OAuth2 token "
         "endpoints, opaque and JWT access tokens. After every step every token in the session database is projected to (handle, scope) and "
         "compared with the Lean model; the oracle checks scope(token) within (request scope intersect allowed scopes of the client) for every "
-        "stored token, and that the token response, the JWT payload and introspection state the scope the access token carries. "
+        "stored token, scope(exchanged token) within scope(subject token) and within the requested scope, and that the token response, the JWT "
+        "payload and introspection state the scope the access token carries. "
         "non-trivial: history containing a refresh with an explicit scope")
-MODELLED = prov.__doc__ + " modelled: AuthzHandling scope filter, Grant.find_scope, refresh scope check at parse and use at process"
-ASSUMPTIONS = ["token exchange, client-credentials and password grants are not modelled (the oracle does not cover them either)",
+MODELLED = (prov.__doc__ + " modelled: AuthzHandling scope filter, Grant.find_scope, refresh scope check at parse and use at process, "
+            "validate_token_exchange_policy (requested ∩ subject scope), the per-client filter of the exchange and the ExchangeGrant's scope")
+ASSUMPTIONS = ["client-credentials and password grants are not modelled (the oracle does not cover them either); deny_unknown_scopes is off",
+               "token exchange histories run with opaque token handlers only",
                "resource indicators are off (with them the response states a client-chosen scope: outside the property's configuration quantifier)"]
 
 W = dict(authorize=18, redeem=24, parse=2, process=2, refresh=30, userinfo=2, introspect=12, revokeEp=1, revokeTok=1,
@@ -57,8 +61,15 @@ def cases(rng, tier):
             for cl in ("client_1", "client_2", "client_3"):
                 for _ in range({"quick": 1, "thorough": 6, "search": 4}[tier]):
                     out.append({"t": "narrow", "oidc": oidc, "jwt": jwt, "client": cl, "seed": rng.getrandbits(32)})
-    return out + [{"t": "hist", "oidc": rng.random() < 0.6, "jwt": rng.random() < 0.4, "gen_seed": rng.getrandbits(48),
+    out += [{"t": "hist", "oidc": rng.random() < 0.6, "jwt": rng.random() < 0.4, "gen_seed": rng.getrandbits(48),
              "n": rng.randint(8, 22 if tier == "quick" else 40)} for _ in range(n)]
+    out += [{"t": "hist", "oidc": rng.random() < 0.6, "jwt": False, "usage": "exchange", "gen_seed": rng.getrandbits(48),
+             "n": rng.randint(10, 24 if tier == "quick" else 40)} for _ in range(n // 2)]
+    return out
+
+
+XW = dict(authorize=16, redeem=26, parse=1, process=1, refresh=12, exchange=30, userinfo=1, introspect=8, revokeEp=1, revokeTok=1,
+          revokeGrant=0.5, revokeClient=0.3, revokeUser=0.1, remove=0.3, tick=2)
 
 
 def _ops_for(c):
@@ -66,7 +77,8 @@ def _ops_for(c):
         return c["ops"]
     if c["t"] == "narrow":
         return _narrow_ops(c)
-    ops, _ = prov.gen_adaptive(random.Random(c["gen_seed"]), c["n"], oidc=c["oidc"], jwt=c["jwt"], weights=W)
+    ops, _ = prov.gen_adaptive(random.Random(c["gen_seed"]), c["n"], oidc=c["oidc"], jwt=c["jwt"], usage=c.get("usage"),
+                               weights=XW if c.get("usage") == "exchange" else W)
     return ops
 
 
@@ -82,11 +94,16 @@ def _jwt_scope(tok):
 
 def impl(c):
     ops = _ops_for(c)
-    R = prov.Runner(c["oidc"], c["jwt"])
+    R = prov.Runner(c["oidc"], c["jwt"], usage=c.get("usage"))
     steps = []
     for o in ops:
+        before = {t[0]: t[7] for t in R.projection()["toks"]} if o[0] == "exchange" else None
         r = R.op(o)
         st = {"out": prov.canon_outcome(r), "raw": r, "proj": R.projection()}
+        if r[0] == "exchanged" and r[1] >= 0:
+            it = R.op_safe(["introspect", _owner(R, r[1]), r[1]])
+            st["xviews"] = {"response": r[2], "introspect": it[2] if it[0] == "introspect" and it[1] else None,
+                            "subject": before.get(o[2]), "requested": o[5]}
         if r[0] == "tokens" and r[1] >= 0:
             at = R.tv(r[1])
             st["views"] = {"response": r[4], "jwt": sorted(_jwt_scope(at)) if c["jwt"] and _jwt_scope(at) is not None else None}
@@ -105,7 +122,7 @@ def _owner(R, hnd):
 
 
 def model_lines(c, obs):
-    return [prov.cfg_line(c["oidc"], c["jwt"])] + [prov.model_line(o) for o in obs["ops"]]
+    return [prov.cfg_line(c["oidc"], c["jwt"], c.get("usage"))] + [prov.model_line(o) for o in obs["ops"]]
 
 
 def compare(c, obs, outs):
@@ -124,6 +141,21 @@ def oracle(c, obs):
         for h, t in toks.items():
             if t[2] in authorised and not set(t[7]) <= authorised[t[2]]:
                 v.append({"cls": "scope-escalation", "step": i, "op": o[0], "token_class": t[1], "extra": sorted(set(t[7]) - authorised[t[2]])})
+        if "xviews" in st:
+            xv, nt = st["xviews"], toks.get(r[1])
+            if nt is not None:
+                ts = set(nt[7])
+                if xv["subject"] is not None and not ts <= set(xv["subject"]):
+                    v.append({"cls": "exchange-widens", "step": i, "extra": sorted(ts - set(xv["subject"])), "beyond": "subject token"})
+                if xv["requested"] is not None and not ts <= set(xv["requested"]):
+                    v.append({"cls": "exchange-widens", "step": i, "extra": sorted(ts - set(xv["requested"])), "beyond": "requested scope"})
+                for name in ("response", "introspect"):
+                    if xv[name] is not None and sorted(set(xv[name])) != sorted(ts):
+                        v.append({"cls": "views-disagree", "step": i, "view": name, "stated": xv[name], "token": sorted(ts)})
+                # an ExchangeGrant is bounded by what was authorised for the grant the subject token came from
+                sg = toks[o[2]][2] if o[2] in toks else None
+                if nt[2] not in authorised and sg in authorised:
+                    authorised[nt[2]] = authorised[sg]
         if "views" in st:
             at = toks.get(r[1])
             if at is not None:
@@ -146,4 +178,5 @@ def classify(c, obs):
 
 
 def nontrivial(c, obs):
-    return any(o[0] == "refresh" and o[3] is not None for o in obs["ops"])
+    return any((o[0] == "refresh" and o[3] is not None) or (o[0] == "exchange" and st["raw"][0] == "exchanged")
+               for o, st in zip(obs["ops"], obs["steps"]))
